@@ -208,29 +208,24 @@ struct Config {
 fn configs(tier: Tier) -> Vec<Config> {
     let mut v = vec![];
     let quick = tier == Tier::Quick;
+    let mut add = |limit: u8, nrooms: u8, ncirc: u8, races: bool, foreign: bool, depth: u8| {
+        v.push(Config { limit, nrooms, ncirc, races, foreign, all_orders: true, depth })
+    };
     for limit in 1..=2u8 {
-        for nrooms in 1..=3u8 {
-            // callers as they are when no connection ends in the middle of a synchronisation
-            let d = match (quick, nrooms) {
-                (true, 1) => 6,
-                (true, 2) => 5,
-                (true, _) => 4,
-                (false, 1) => 9,
-                (false, 2) => 7,
-                (false, _) => 6,
-            };
-            v.push(Config { limit, nrooms, ncirc: 3, races: false, foreign: false, all_orders: true, depth: d });
-            // with the exit races of a connection (findings expected) and with foreign unlocks
-            let d2 = match (quick, nrooms) {
-                (true, 1) => 5,
-                (true, _) => 4,
-                (false, 1) => 7,
-                (false, 2) => 6,
-                (false, _) => 5,
-            };
-            v.push(Config { limit, nrooms, ncirc: 3, races: true, foreign: false, all_orders: true, depth: d2 });
-            v.push(Config { limit, nrooms, ncirc: 3, races: false, foreign: true, all_orders: true, depth: d2.min(5) });
+        // callers as they are when no connection ends in the middle of a synchronisation
+        add(limit, 1, 3, false, false, if quick { 8 } else { 11 });
+        add(limit, 2, 3, false, false, if quick { 6 } else if limit == 1 { 8 } else { 7 });
+        add(limit, 3, 3, false, false, 5);
+        if !quick && limit == 2 {
+            add(limit, 3, 2, false, false, 6);
         }
+        // with the exit races of a connection (findings expected): not extended past a violation
+        add(limit, 1, 3, true, false, if quick { 6 } else { 8 });
+        add(limit, 2, 3, true, false, if quick { 5 } else { 6 });
+        add(limit, 3, 3, true, false, if quick { 4 } else { 5 });
+        // with foreign unlocks (counted, not judged by default)
+        add(limit, 2, 3, false, true, if quick { 4 } else { 5 });
+        add(limit, 3, 3, false, true, 4);
     }
     v
 }
@@ -314,25 +309,34 @@ fn run_block(b: &Block) -> Outcome {
     let mut stack: Vec<Vec<Op>> = vec![b.prefix.clone()];
     // shortest violating sequence per signature
     let mut found: BTreeMap<String, (usize, String)> = BTreeMap::new();
-    let mut n = 0u64;
+    let mut label_counts: BTreeMap<&'static str, u64> = BTreeMap::new();
+    let mut model_counts: BTreeMap<&'static str, u64> = BTreeMap::new();
+    let mut by_len = [0u64; 16];
+    let (mut n, mut msgs, mut nontriv, mut reruns, mut pruned) = (0u64, 0u64, 0u64, 0u64, 0u64);
     while let Some(ops) = stack.pop() {
         let seq = block_seq(b, ops);
         let r = run_seq(&seq, 1, jf);
         n += 1;
-        o.count("enum_sequences", 1);
-        o.count(&format!("enum_sequences len={}", seq.ops.len()), 1);
-        o.count("enum_service_messages", r.steps);
+        by_len[seq.ops.len().min(15)] += 1;
+        msgs += r.steps;
         if n % 61 == 0 {
             let r2 = run_seq(&seq, 3, jf);
-            o.count("determinism_reruns", 1);
+            reruns += 1;
             if r2.trace != r.trace {
                 o.violation("harness:execution-not-a-function-of-the-sequence", format!("{} | {:?} vs {:?}", show(&seq.ops), r.trace, r2.trace));
             }
         }
-        merge_model(&mut o, &r.end, false);
+        for l in &r.end.labels {
+            *label_counts.entry(*l).or_insert(0) += 1;
+        }
+        for (k, c) in &r.end.counters {
+            *model_counts.entry(*k).or_insert(0) += c;
+        }
+        for u in &r.end.unjudged {
+            o.count(&format!("unjudged {}", u), 1);
+        }
         if nontrivial(&r.state) {
-            o.nontrivial = true;
-            o.count("enum_nontrivial_sequences", 1);
+            nontriv += 1;
         }
         if !r.end.violations.is_empty() {
             for (sig, detail) in &r.end.violations {
@@ -358,7 +362,7 @@ fn run_block(b: &Block) -> Outcome {
             continue;
         }
         if r.end.stopped() {
-            o.count("enum_pruned_after_unjudged", 1);
+            pruned += 1;
             continue;
         }
         if seq.ops.len() < b.depth as usize {
@@ -369,13 +373,33 @@ fn run_block(b: &Block) -> Outcome {
             }
         }
     }
+    o.count("enum_sequences", n);
+    o.count("enum_service_messages", msgs);
+    o.count("enum_nontrivial_sequences", nontriv);
+    o.count("determinism_reruns", reruns);
+    if pruned > 0 {
+        o.count("enum_pruned_after_unjudged", pruned);
+    }
+    for (i, c) in by_len.iter().enumerate() {
+        if *c > 0 {
+            o.count(&format!("enum_sequences len={:02}", i), *c);
+        }
+    }
+    for (l, c) in label_counts {
+        o.count(&format!("seq_label {}", l), c);
+    }
+    for (k, c) in model_counts {
+        o.count(k, c);
+    }
+    o.nontrivial = nontriv > 0;
     for (sig, (_, detail)) in found {
         o.violation(sig, detail);
     }
     o.label(format!(
-        "block:limit{}-rooms{}{}{}",
+        "block:limit{}-rooms{}-circuits{}{}{}",
         b.limit,
         b.nrooms,
+        b.ncirc,
         if b.races { "-races" } else { "" },
         if b.foreign { "-foreign" } else { "" }
     ));
@@ -436,7 +460,7 @@ impl Property for C20 {
     const ISOLATE: bool = false;
     fn plan(tier: Tier) -> Plan {
         match tier {
-            Tier::Quick => Plan { shards: 16, cases_per_shard: 6000, max_shrink_iters: 2000 },
+            Tier::Quick => Plan { shards: 16, cases_per_shard: 20000, max_shrink_iters: 2000 },
             Tier::Thorough => Plan { shards: 16, cases_per_shard: 120000, max_shrink_iters: 4000 },
         }
     }
